@@ -101,7 +101,7 @@ def tlc(module, cfg, constants=None, workers=None, timeout=900, simulate=None,
         cfg_path = os.path.join(tmp, run_module + ".cfg")
         with open(cfg_path, "w") as f:
             f.write(cfg_text)
-        cmd = ["java", "-XX:+UseParallelGC", "-Xmx6g", "-Xss256m", "-cp", TLA_CP, "tlc2.TLC",
+        cmd = ["java", "-XX:+UseParallelGC", "-Xmx6g", "-Xss256m", "-Djava.io.tmpdir=" + tmp, "-cp", TLA_CP, "tlc2.TLC",
                "-workers", str(workers), "-metadir", os.path.join(tmp, "meta"),
                "-noGenerateSpecTE", "-config", cfg_path]
         if not deadlock:
